@@ -189,6 +189,13 @@ class FluentParser(Parser):
             elif isinstance(entry, ftl.Junk):
                 start = entry.span.start
                 end = entry.span.end
+                if not entry.content.strip(" \t\r\n"):
+                    # Junk consisting of white-space only, keep it whole.
+                    # Stripping it from both ends would report the same
+                    # text twice, around Junk with an inverted span.
+                    yield Junk(self.ctx, (start, end))
+                    last_span_end = entry.span.end
+                    continue
                 # strip leading whitespace
                 start += re.match("[ \t\r\n]*", entry.content).end()
                 if not only_localizable and entry.span.start < start:
